@@ -370,6 +370,32 @@ def check_other_kex(st):
             judge_plain_rsa(bits, ['rsa-sha2-256'], res, 'text', wire.serialize(tree), st, 'kexpath')
 
 
+def check_reply_f(st):
+    """the server's DH public value f travels as an mpint: every legal length and top byte (a leading zero byte when the top bit is set,
+    so up to one byte more than the modulus; short values) on every finite-field path - the key in the same reply is reported all the same"""
+    groups = {'diffie-hellman-group1-sha1': 1024, 'diffie-hellman-group14-sha256': 2048, 'diffie-hellman-group16-sha512': 4096,
+              'diffie-hellman-group-exchange-sha256': 2048, 'curve25519-sha256': 256, 'ecdh-sha2-nistp256': 520}
+    for kex, pbits in sorted(groups.items()):
+        nbytes = pbits // 8
+        fs = {'short': b'\x05', 'top-01': b'\x01' + b'\x33' * (nbytes - 1), 'top-7f': b'\x7f' + b'\xff' * (nbytes - 1),
+              'top-80': b'\x00\x80' + b'\x00' * (nbytes - 1), 'top-ff': b'\x00\xff' + b'\xee' * (nbytes - 1), 'one-byte-less': b'\x41' * (nbytes - 1)}
+        if pbits in (256, 520):
+            fs = {'raw-top-80': b'\x80' + b'\x11' * (nbytes - 1), 'raw-top-00': b'\x00' + b'\x11' * (nbytes - 1), 'raw-top-ff': b'\xff' * nbytes}
+        for fname, f in sorted(fs.items()):
+            for bits in (1024, 3072):
+                tree = wire.rsa_blob_tree(bits)
+                srv = P.Server(kex=[kex], key=['rsa-sha2-256'], host_keys={'ssh-rsa': tree}, banner=b'SSH-2.0-OpenSSH_9.6',
+                               gex=P.GexPolicy([2048], P.STRICT) if 'group-exchange' in kex else None)
+                srv.reply_f = f
+                res = H.audit(srv, opts=['-n', '--skip-rate-test'])
+                root = ('reply-f', kex, fname, bits)
+                st.execution(res.world, outcome=('reply-f', kex, res.status), root=root, nontrivial=root)
+                if res.status not in (0, 2, 3):
+                    st.violation('reply-f:audit-failed:%s' % kex, {'f': fname, 'status': res.status})
+                    continue
+                judge_plain_rsa(bits, ['rsa-sha2-256'], res, 'text', wire.serialize(tree), st, 'reply-f:%s' % fname)
+
+
 # ---- several RSA certificate algorithm names on one server (one certificate blob behind them): each name reports the certificate's details
 RSA_CERT_NAMES = ['ssh-rsa-cert-v01@openssh.com', 'rsa-sha2-256-cert-v01@openssh.com', 'rsa-sha2-512-cert-v01@openssh.com']
 
@@ -567,6 +593,7 @@ def run(tier, seed):
     par.pmap(work_later_probe_fault, later_probe_fault_cases(), stats=st, chunk=4)
     par.pmap(work_cert_family, cert_family_cases(), stats=st, chunk=4)
     check_other_kex(st)
+    check_reply_f(st)
     par.pmap(work_values, _vc, stats=st, chunk=16)
     vcases = []
     for bits in H.pick(sizes, seed, 10 if tier == 'quick' else 60):
